@@ -270,6 +270,12 @@ func c14(ctx *Ctx) (*Outcome, error) {
 	for i := 0; i < ctx.N(24, 48); i++ {
 		cases = append(cases, suffixLookalikeCase(i))
 	}
+	for i := 0; i < 12; i++ {
+		cases = append(cases, objectDefaultCase(i))
+	}
+	for i := 0; i < 128; i++ {
+		cases = append(cases, collisionKindsCase(i))
+	}
 	// pinned witness of the recorded finding name-breaks-tag
 	for _, hn := range hazard {
 		root := &sg.Schema{Types: []string{"object"}, Props: []sg.Prop{{Name: hn, S: &sg.Schema{Types: []string{"string"}}}, {Name: "plain", S: &sg.Schema{Types: []string{"integer"}}}}}
